@@ -60,6 +60,8 @@ class CEMIInfo:
     @staticmethod
     def from_knx(raw: bytes) -> tuple[CEMIInfo, bytes]:
         """Parse/deserialize from CEMI raw data."""
+        if not raw:
+            raise CouldNotParseCEMI("CEMI too small: additional info length missing")
         length = raw[0]
         return CEMIInfo(raw[1 : length + 1]), raw[length + 1 :]
 
@@ -666,6 +668,8 @@ class CEMIFrame:
     @staticmethod
     def from_knx(raw: bytes) -> CEMIFrame:
         """Parse/deserialize from KNX/IP raw data."""
+        if not raw:
+            raise CouldNotParseCEMI("CEMI too small. Length: 0")
         try:
             code = CEMIMessageCode(raw[0])
         except ValueError:
